@@ -1058,3 +1058,179 @@ def run_c16(ctx):
 
 
 REGISTRY["C16"] = dict(module="Properties_C16", run=run_c16)
+
+
+# ------------------------------------------------------------------------------------------
+# C09 (error state) and C12 (write_file)
+
+C09_SETUP = ["init",
+             "fs put %s %s" % (hx(b"inc_bad.cfg"), hx(b"x = 1;\ny = [1,\n  2.5];\n")),
+             "fs put %s %s" % (hx(b"inc_ok.cfg"), hx(b"x = 1;\n")),
+             "fs put %s %s" % (hx(b"top_bad.cfg"), hx(b"a = 1;\n@include \"inc_bad.cfg\"\nb = 2;\n")),
+             "fs put %s %s" % (hx(b"top_ok.cfg"), hx(b"a = 1;\n@include \"inc_ok.cfg\"\nb = 2;\n")),
+             "fs put %s %s" % (hx(b"top_missing.cfg"), hx(b"a = 1;\n\n\n@include \"nosuch.cfg\"\n")),
+             "fs dir %s" % hx(b"adir")]
+C09_ALPHABET = [
+    "reads %s" % hx(b"a=1;"),
+    "reads %s" % hx(b"a = ;"),
+    "reads %s" % hx(b"a=1;\n\na=2;"),
+    "reads %s" % hx(b"a=[1,\n\n\n\"x\"];"),
+    "readst %s" % hx(b"\n\nb = (1, 2;"),
+    "reads %s" % hx(b"@include \"nosuch\"\n"),
+    "readf %s" % hx(b"top_bad.cfg"),
+    "readf %s" % hx(b"top_missing.cfg"),
+    "readf %s" % hx(b"top_ok.cfg"),
+    "readf %s" % hx(b"nosuch.cfg"),
+    "readf %s" % hx(b"adir"),
+    "writef %s" % hx(b"out.cfg"),
+    "wdev -1 0 1 0\nwritef %s\nwdev -1 0 0 0" % hx(b"out2.cfg"),
+    "writef %s" % hx(b"nodir/out.cfg"),
+]
+
+
+def c09_cases(depth):
+    import itertools
+    for combo in itertools.product(range(len(C09_ALPHABET)), repeat=depth):
+        body = list(C09_SETUP)
+        for i in combo:
+            body.append(C09_ALPHABET[i])
+            body.append("dump")
+        yield "\n".join(body) + "\n"
+
+
+def e_after(script, lines):
+    """[(macro-op text, E line after it)] for every dump of the script"""
+    al = align(script, lines)
+    res = []
+    cur = []
+    for op, out in al:
+        if op == "dump":
+            e = next((l for l in out if l.startswith("E ")), None)
+            res.append(("\n".join(cur), e))
+            cur = []
+        elif not op.startswith(("fs ", "init")):
+            cur.append(op)
+    return res
+
+
+def run_c09(ctx):
+    res = Result()
+    rc = replay_cases(ctx)
+    depth = 2 if ctx.tier == "quick" else 3
+    cases = rc if rc is not None else list(c09_cases(depth))
+    if rc is None:
+        res.exhaustive = True
+    # the implementation's own report of each call on a fresh object (oracle reference, model-free)
+    runner = ctx.runner()
+    solo = {}
+    for a in C09_ALPHABET:
+        r = run_single(runner, "\n".join(C09_SETUP + [a, "dump"]) + "\n")
+        ea = e_after(r["script"], r["impl"])
+        if ea:
+            solo[a] = ea[-1][1]
+
+    def oracle(script, rec):
+        bad = died(script, rec)
+        for op, e in e_after(script, rec["impl"]):
+            if op in solo and e != solo[op]:
+                bad.append("after '%s' the error fields are %s; the same call on a fresh configuration reports %s" % (
+                    op.replace("\n", "; "), e, solo[op]))
+        return bad
+    res.rule = ("every history of length %d over %d calls on one configuration object (ok reads from string/stream/file "
+                "with include; syntax error, duplicate, mismatched element at different lines; error inside an included "
+                "file; missing include; missing file; directory; ok write; write whose close fails; "
+                "write into a missing directory), the four error fields compared with the model after every call and, "
+                "model-free, with the report of the same call on a fresh object" % (depth, len(C09_ALPHABET)))
+    res.distinct = distinct_count(cases)
+    res.distribution["ops"] = summarize_ops(cases)
+    res.distribution["solo_reports"] = solo
+    res.samples = [cases[len(cases) // 2]] if cases else []
+    keep = lambda l: l if l.startswith(("R ", "E ")) else None
+    correspond(ctx, res, cases, line_filter=keep, oracle=oracle,
+               known=lambda s, r, o: match_known("C09", s, r, o), per_proc=20)
+    return res
+
+
+REGISTRY["C09"] = dict(module="Properties_C09", run=run_c09)
+
+
+def c12_cases(rng, n_cfg):
+    import gen_text
+    cases = []
+    stats = {"faults": 0, "cfgs": 0}
+    for i in range(n_cfg):
+        text = gen_text.rand_config(rng, size=rng.choice([3, 10, 60]))
+        body = ["init", "reads %s" % hx(text), "write"]
+        # length of the serialisation is not known to the generator: use caps around typical sizes and boundaries
+        caps = [0, 1, 2, 5, 17, 100, 4095, 4096, 4097, 8192, 20000]
+        for fs_opt in (0, 1):
+            body.append("option 64 %d" % fs_opt)
+            for cap in caps:
+                body += ["wdev %d 0 0 0" % cap, "writef %s" % hx(b"o%d_%d.cfg" % (fs_opt, cap)), "dump"]
+                stats["faults"] += 1
+            for (fsf, clf, opf) in ((1, 0, 0), (0, 1, 0), (0, 0, 1), (1, 1, 0)):
+                body += ["wdev -1 %d %d %d" % (fsf, clf, opf), "writef %s" % hx(b"f%d%d%d%d.cfg" % (fs_opt, fsf, clf, opf)), "dump"]
+                stats["faults"] += 1
+            body += ["wdev -1 0 0 0", "writef %s" % hx(b"ok%d.cfg" % fs_opt), "dump", "fs cat %s" % hx(b"ok%d.cfg" % fs_opt)]
+            body += ["writef %s" % hx(b"missingdir/x.cfg"), "dump"]
+        cases.append("\n".join(body) + "\n")
+        stats["cfgs"] += 1
+    return cases, stats
+
+
+def c12_oracle(script, rec):
+    """success <=> the file holds exactly the config_write text (read back from the real file system by the
+    harness's 'fs cat' and, for every capped write, by comparing sizes)"""
+    bad = died(script, rec)
+    al = align(script, rec["impl"])
+    text = None
+    cap = -1
+    flags = (0, 0, 0)
+    for i, (op, out) in enumerate(al):
+        f = op.split(" ")
+        if not out:
+            continue
+        r = out[0][2:]
+        if op == "write":
+            text = bytes.fromhex(r[2:]) if r.startswith("sh") else None
+        elif f[0] == "wdev":
+            cap = int(f[1])
+            flags = (int(f[2]), int(f[3]), int(f[4]))
+        elif f[0] == "option" and f[1] == "64":
+            fsync = int(f[2])
+        elif f[0] == "writef" and text is not None:
+            path = unhx(f[1])
+            must_fail = (0 <= cap < len(text)) or flags[2] or flags[1] or (flags[0] and fsync) or path.startswith(b"missingdir/")
+            if must_fail and r == "i1":
+                bad.append("'%s' reported success although the file cannot hold the %d bytes / a step was made to fail "
+                           "(cap=%d, fsync/close/open fail=%s)" % (op, len(text), cap, flags))
+            if not must_fail and r == "i0":
+                bad.append("'%s' reported failure although nothing failed" % op)
+        elif f[0] == "fs" and f[1] == "cat" and text is not None:
+            got = bytes.fromhex(r[2:]) if r.startswith("sh") else None
+            if got != text:
+                bad.append("file written with success differs from config_write output")
+    return bad
+
+
+def run_c12(ctx):
+    res = Result()
+    rc = replay_cases(ctx)
+    if rc is not None:
+        cases, stats = rc, {}
+    else:
+        cases, stats = c12_cases(ctx.rng, 40 if ctx.tier == "quick" else 400)
+    res.rule = ("generated configurations (a few bytes to tens of KiB) x fsync option off/on x RLIMIT_FSIZE at 0, 1, 2, 5, "
+                "17, 100, 4095..4097, 8192, 20000 bytes, fsync / fclose / fopen forced to fail, missing directory, and a "
+                "fault-free write whose file is read back; return value and error fields compared with the model after "
+                "every call; model-free oracle: success iff nothing was made to fail and the text fits")
+    res.distinct = distinct_count(cases)
+    res.distribution = dict(stats)
+    res.samples = [cases[0][:800]] if cases else []
+    keep = lambda l: l if l.startswith(("R ", "E ")) else None
+    correspond(ctx, res, cases, line_filter=keep, oracle=c12_oracle,
+               known=lambda s, r, o: match_known("C12", s, r, o), per_proc=4)
+    return res
+
+
+REGISTRY["C12"] = dict(module="Properties_C12", run=run_c12)
